@@ -585,6 +585,12 @@ func VerifyNODATAForZoneWithWork(
 		if q.Qtype == dns.TypeDS && typesSet(types, dns.TypeSOA) {
 			return false, ErrNSECBadDelegation
 		}
+		// The converse: an exact match marking a zone cut (NS without
+		// SOA) is the parent's record, authoritative for DS alone; it
+		// cannot deny another type of a name served by the child.
+		if q.Qtype != dns.TypeDS && typesSet(types, dns.TypeNS) && !typesSet(types, dns.TypeSOA) {
+			return false, ErrNSECBadDelegation
+		}
 		return true, nil
 	} else if err != ErrNSECMissingCoverage {
 		return false, err
